@@ -4,6 +4,11 @@ The writers are evaluated on *symbolic cards* (a name and n fields of given type
 (write-as-you-go loop, nested ifs, buffer-and-join) the result is an abstract text whose lines are parsed on the reference grid of the
 property (8-column head, W-wide fields, 72 columns).  The generic readers are then evaluated on that very text (`_rdfixed`) and on the
 comma form of the same card (`_rdcomma`) and must give back the fields, one for one.
+
+Helper functions are followed (c12_exec `inline=`): text counts as written when it reaches `write` / `writelines` of the file *value*, a line
+is consumed when `send` / `next` is applied to the iterator *value*, under whatever name a helper receives them.  What rdcards hands to the
+readers is read from the values of the reader calls on every path of a generic card, found through the call graph from rdcards (any loop
+shape, any depth of helpers); when those values cannot be determined the rule reports an analysis error, never a violation.
 """
 from __future__ import annotations
 
@@ -13,7 +18,7 @@ from fractions import Fraction
 from .core import AnchorError, Unsupported
 from .e1_srcmodel import dotted
 from .c12_str import Unk, Const, Param, Opaque, Lit, Fmt, Cat, Strip, Slice, StrOf, CallS, Tup, Len, cat, as_int, is_str, is_num
-from .c12_exec import Engine, Interval, State, walk_value
+from .c12_exec import Engine, Interval, State, walk_value, _FLIP as _FLIPPED
 from .c12_text import (FIELD, is_field, field_of, atoms, width, all_blank, rstrip, slice_text, first_char, split_lines, split_commas,
                        parse_fixed, FLOATW, BLANKS)
 
@@ -332,6 +337,8 @@ def shapes(per):
     out.append((f"{3 * per + 1} fields, two blank lines", ["int"] * (per - 1) + ["blank"] * (2 * per + 1) + ["int"]))
     out.append((f"{2 * per} fields, blank run across the line break", ["int"] * (per - 2) + ["blank"] * 4 + ["float"] * (per - 2)))
     out.append((f"{per + 3} fields, blank first line", ["blank"] * per + ["int"] * 3))
+    # a continuation line that ends in blank fields (short once stripped) and is followed by another line: the field count must catch up
+    out.append((f"{3 * per} fields, the second line ends in blank fields", ["int"] * (per + 2) + ["blank"] * (per - 2) + ["float"] * per))
     out.append(("60 integer fields", ["int"] * 60))                               # the longest card of the property's domain
     out.append(("58 fields of mixed types", mixed(58)))
     return out
@@ -432,6 +439,7 @@ def rdcards_dispatch(ctx):
         return NotImplemented
 
     eng = _DispatchEngine(ctx, BULK, fn, env={}, lenient=True, call=call, inline=follow)
+    eng.max_states = 40000              # option handling before the card loop doubles the paths a few times; they are cheap
     try:
         leaves = eng.run()
     except Unsupported as e:
@@ -440,6 +448,7 @@ def rdcards_dispatch(ctx):
     comma = set()
     order = []
     unbound = []
+    first_stripped = set()
     where = None
     seen = set()
     for lf in leaves:
@@ -466,6 +475,8 @@ def rdcards_dispatch(ctx):
                 order.append(nm)                                 # provably the wrong way round
             elif args[0] != LINES or not has_line[1]:
                 unbound.append(f"{nm}({', '.join(_short(a) for a in args[:2])}, ...)")
+            if nm == "_rdfixed" and args[1] is not None:
+                first_stripped.add(any(isinstance(n, Strip) and n.chars is None and n.side in ("r", "b") for n in walk_value(args[1])))
             if nm == "_rdfixed" and len(args) >= 4:
                 if star is None:
                     unbound.append("_rdfixed reached without a decided test for '*' in the first 8 columns")
@@ -475,7 +486,7 @@ def rdcards_dispatch(ctx):
                 comma.add(args[2])
     if where is None:
         raise AnchorError("rdcards: no path of a generic card reaches _rdfixed / _rdcomma")
-    return found, comma, where, order, unbound
+    return found, comma, where, order, unbound, first_stripped == {True}
 
 
 def _short(v):
@@ -499,12 +510,24 @@ def _star_test(op, a, b):
             if isinstance(n, Slice) and n.lo is None and as_int(n.hi) == 8:
                 return True
         return False
+    if op == "truth":
+        # `if head.count("*"):`  -  a count is true when there is one (find / index have no such reading: -1 is true as well)
+        if isinstance(a, Opaque) and a.name == ".count" and len(a.args) == 2 and a.args[1] == Lit("*") and in_head(a.args[0]):
+            return True
+        return None
     if isinstance(op, (ast.In, ast.NotIn)) and a == Lit("*") and in_head(b):
         return isinstance(op, ast.In)
+    if is_num(a) and not is_num(b) and type(op) in _FLIPPED:
+        a, b, op = b, a, _FLIPPED[type(op)]()
     if isinstance(a, Opaque) and a.name in (".find", ".index") and len(a.args) == 2 and a.args[1] == Lit("*") and in_head(a.args[0]) and is_num(b):
         if (isinstance(op, ast.Gt) and b == -1) or (isinstance(op, ast.GtE) and b == 0) or (isinstance(op, ast.NotEq) and b == -1):
             return True
         if (isinstance(op, ast.LtE) and b == -1) or (isinstance(op, ast.Lt) and b == 0) or (isinstance(op, ast.Eq) and b == -1):
+            return False
+    if isinstance(a, Opaque) and a.name == ".count" and len(a.args) == 2 and a.args[1] == Lit("*") and in_head(a.args[0]) and is_num(b):
+        if (isinstance(op, ast.Gt) and b == 0) or (isinstance(op, ast.GtE) and b == 1) or (isinstance(op, ast.NotEq) and b == 0):
+            return True
+        if (isinstance(op, ast.LtE) and b == 0) or (isinstance(op, ast.Lt) and b == 1) or (isinstance(op, ast.Eq) and b == 0):
             return False
     return None
 
@@ -516,7 +539,7 @@ def r3_card_grid(ctx):
     ctx.assume("C12-R3: a field value fits the column it is written into (integers of at most W digits, strings of at most W characters); "
                "names and string fields hold no '$', ',' or '*'")
     # ---- what the generic reader expects
-    found, comma, loop, order, unbound = rdcards_dispatch(ctx)
+    found, comma, loop, order, unbound, first_stripped = rdcards_dispatch(ctx)
     if unbound:
         ctx.error("rdcards: the arguments of a reader call are not determined", loop, unbound[:4])
     ctx.check(not order, "rdcards: the readers receive the line iterator first and the current line second", loop, order or None)
@@ -553,6 +576,9 @@ def r3_card_grid(ctx):
         except (Crash, Unsupported) as e:
             ctx.error(f"{q}: the writer is not modelled", fn, str(e))
             continue
+        if not used or not used <= set(FLOATW):
+            ctx.error(f"{q}: real fields are rendered by {fmt}: the rendering of a real field is not a call of a public formatter", fn, sorted(used))
+            continue
         ctx.check(used == {fmt}, f"{q}: real fields are rendered by {fmt}", fn, None if used == {fmt} else sorted(used))
     # ---- writers on the reference grid, readers on the written text
     for q, fmt, name, W, per in WRITERS:
@@ -574,7 +600,9 @@ def r3_card_grid(ctx):
                 continue
             rfn = ctx.src.func(BULK, "_rdfixed")
             lines = split_lines(text)
-            lines = lines[:1] + [cat(ln, Lit("\n")) for ln in lines[1:]]          # continuation lines arrive raw, the first one stripped
+            # continuation lines arrive raw; the first one as rdcards hands it over (right-stripped if that is what the call passes)
+            head = _text_post(Strip(lines[0], None, "r"), None, None) if first_stripped else lines[0]
+            lines = [head if is_str(head) else lines[0]] + [cat(ln, Lit("\n")) for ln in lines[1:]]
             want = trim([BLANK if s == "blank" else s for s in expected_slots(shape)], BLANK)
             try:
                 got, used = run_reader(ctx, "_rdfixed", lines, W, conch[W], True)
